@@ -232,4 +232,9 @@ class MarginRule(cssrule.CSSRule):
         doc="The type of this rule, as defined by a CSSRule type constant.",
     )
 
+    valid = property(
+        lambda self: self.style.valid,
+        doc='``True`` when the style declaration is valid.',
+    )
+
     wellformed = property(lambda self: bool(self.atkeyword))
